@@ -197,9 +197,19 @@ fn run_all(scs: Vec<Scenario>, known: &Known, rep: &Mutex<Report>) {
                             kinds.dedup();
                             let classification = format!("{}/{}", stage, kinds.join("+"));
                             let prop = prop_of(sc.stages.last().unwrap_or(&Stage::Identity));
+                            let mut pprops = vec![prop];
+                            // a panic in the batched flavour of a history whose plain twin runs through is also a C13 matter
+                            if sc.batched && sc.cap >= 16 && !sc.stages.iter().any(|s| s.is_dynamic()) {
+                                let twin = Scenario { batched: false, ..sc.clone() };
+                                if let Ok(o2) = std::panic::catch_unwind(std::panic::AssertUnwindSafe(|| run(&twin))) {
+                                    if o2.failure.is_none() && prop != "C13" {
+                                        pprops.push("C13");
+                                    }
+                                }
+                            }
                             let kn = known.matches(&classification);
                             let j = serde_json::json!({
-                                "properties": [prop], "property": prop, "classification": classification, "what": format!("the library panicked: {}", msg), "step": null,
+                                "properties": pprops, "property": prop, "classification": classification, "what": format!("the library panicked: {}", msg), "step": null,
                                 "expected": "no panic", "observed": msg, "input": sc.to_json(), "known": kn,
                             });
                             let key = format!("panic|{}", classification);
@@ -449,6 +459,19 @@ fn single_stage_family(st: &Stage, quick: bool, seed: u64, out: &mut Vec<Scenari
             }
         }
     }
+    // (e) bursts: many updates of one kind between two polls (no lag: capacity 64), e.g. 20 updates that produce nothing
+    //     for this stage; then a drain, one more update, a drain — every poll must still end registered
+    for burst in [Op::PushBack, Op::Append(0), Op::PushFront, Op::Set(0)] {
+        for n in [17usize, 33] {
+            for b in [false, true] {
+                let mut steps: Vec<(Op, PollMode)> = (0..n).map(|_| (burst.clone(), PollMode::None)).collect();
+                steps.push((burst.clone(), PollMode::Drain));
+                steps.push((Op::PushBack, PollMode::Drain));
+                steps.push((burst.clone(), PollMode::One));
+                out.push(Scenario { cap: 64, initial: 3, stages: chain.to_vec(), steps, batched: b, drop_at_end: true, final_drain: true, abandon_at: None });
+            }
+        }
+    }
     if !quick {
         scenarios_for(&chain, &[1, 2], &[16], &[false, true], &cfg(3, false, None, &[0, 2, 4], true), out);
         scenarios_for(&chain, &[2], &[2], &[false, true], &cfg(3, true, None, &[0, 1, 3], false), out);
@@ -460,7 +483,7 @@ fn build(check: &str, tier: &str, seed: u64) -> (Vec<Scenario>, String) {
     let quick = tier != "thorough";
     let mut out = Vec::new();
     let ends_all = vec![TxEnd::Commit, TxEnd::Rollback, TxEnd::Drop, TxEnd::RollbackThenCommit];
-    let fam = "per stage configuration: (a) every op sequence of depth 3 from initial lengths {0,3} drained after every op; (b) depth 2 from length 3 under all 9 poll patterns (drain/take-one/none per step) with capacities {1,16} (Reset from lag), with and without a poll between the last op and the drop; (c) two-op transactions alone and next to one primitive op; (d) every op sequence of depth 3 from length 3 at capacity 1 with the first op unpolled (Reset from lag, then one more op); both stream flavours; the source is dropped at the end";
+    let fam = "per stage configuration: (a) every op sequence of depth 3 from initial lengths {0,3} drained after every op; (b) depth 2 from length 3 under all 9 poll patterns (drain/take-one/none per step) with capacities {1,16} (Reset from lag), with and without a poll between the last op and the drop; (c) two-op transactions alone and next to one primitive op; (d) every op sequence of depth 3 from length 3 at capacity 1 with the first op unpolled (Reset from lag, then one more op); (e) bursts of 18 and 34 updates of one kind (push_back, empty append, push_front, set) between two polls at capacity 64; both stream flavours; the source is dropped at the end";
     let thor = "; thorough adds depth 4 (static parameters), depth 3 from lengths {1,2}, depth 3 under all 27 poll patterns, and 600 seeded random histories of length 25 per configuration (not exhaustive)";
     let scope;
     match check {
@@ -501,6 +524,10 @@ fn build(check: &str, tier: &str, seed: u64) -> (Vec<Scenario>, String) {
                             }
                         }
                     }
+                    if chain.iter().any(|s| s.is_dynamic()) {
+                        // a longer source and parameter jumps of 4 and more (a stage may emit 4+ diffs for one change)
+                        scenarios_for(&chain, &[6], &[16], &[false, true], &cfg(2, false, None, &[1, 5], false), &mut out);
+                    }
                     if !quick {
                         scenarios_for(&chain, &[3], &[16], &[false], &cfg(3, false, None, &[0, 2], false), &mut out);
                         scenarios_for(&chain, &[3], &[1, 16], &[false, true], &cfg(2, true, None, &[0, 2], false), &mut out);
@@ -515,7 +542,7 @@ fn build(check: &str, tier: &str, seed: u64) -> (Vec<Scenario>, String) {
                     }
                 }
             }
-            scope = format!("all chains of 2 and of 3 adapters over a pool of 14 stage kinds (head/tail/skip: static, purely dynamic, dynamic with initial value; filter; filter_map; sort; sort_by; sort_by_key) with a tap after each stage, every stage checked against the correct view of the stage below; chains of 2: every op sequence of depth 2 from lengths {{0,3}}, both flavours, plus one transaction{}; chains of 3: depth {} from length 3", if quick { "" } else { " (+ depth 3, depth 2 under all poll patterns with lag, seeded random)" }, if quick { 1 } else { 2 });
+            scope = format!("all chains of 2 and of 3 adapters over a pool of 14 stage kinds (head/tail/skip: static, purely dynamic, dynamic with initial value; filter; filter_map; sort; sort_by; sort_by_key) with a tap after each stage, every stage checked against the correct view of the stage below; chains of 2: every op sequence of depth 2 from lengths {{0,3}} (and from length 6 with parameter values {{1,5}} for chains with a dynamic stage), both flavours, plus one transaction{}; chains of 3: depth {} from length 3", if quick { "" } else { " (+ depth 3, depth 2 under all poll patterns with lag, seeded random)" }, if quick { 1 } else { 2 });
         }
         // plain subscriber: C05 / C06 / C07 / C08
         "sub" => {
@@ -723,13 +750,28 @@ fn run_obs(check: &str, tier: &str, seed: u64, known: &Known) -> serde_json::Val
             });
         }
     });
-    let fl = failures.into_inner().unwrap();
+    let mut fl = failures.into_inner().unwrap();
+    // the owner dropped by an unwinding panic (4 fixed cases per flavour)
+    for uniq in [false, true] {
+        for polled in [false, true] {
+            if let Ok(Some(f)) = std::panic::catch_unwind(|| run_unwind_drop(is_async, uniq, polled)) {
+                let mut props: Vec<&str> = f.property.split('+').collect();
+                if is_async {
+                    props.push("C16");
+                }
+                let key = format!("{}|{}|{}", f.classification, f.property, f.what);
+                let j = serde_json::json!({"properties": props, "property": props[0], "classification": f.classification, "what": f.what, "step": f.step, "expected": f.expected, "observed": f.observed, "known": known.matches(&f.classification),
+                    "input": {"kind": "obs-unwind", "flavour": if is_async { "async-lock" } else { "sync" }, "unique_start": uniq, "polled_before": polled}});
+                fl.entry(key).or_insert((0, j));
+            }
+        }
+    }
     let mut fv: Vec<&(usize, serde_json::Value)> = fl.values().collect();
     fv.sort_by_key(|x| x.0);
     let sample: Vec<String> = hist.get(n / 2).map(|h| h.1.iter().map(|o| o.to_text()).collect()).unwrap_or_default();
     serde_json::json!({
         "check": check, "tier": tier, "seed": seed,
-        "scope": format!("{} flavour; handle histories over: Set/SetIfNotEq/SetIfHashNotEq (keys {{0,1}}, every stored value tagged uniquely, equality and hash look at the key only), Update, UpdateIf(true/false), Take, write-guard setters, owner get/read, clone/drop/downgrade/upgrade/into_shared, subscribe/subscribe_reset, and per subscriber poll (two different wakers), next_now, next_ref_now, get, read, reset, clone, clone_reset, drop; at most 3 owners, 3 subscribers, 2 weak references; every sequence of depth {} from 2 fresh starts (shared, unique) and depth {} after 6 set-up prefixes (subscriber parked; two owners + weak; weak; unique turned shared; two subscribers with two wakers; an upgraded weak reference next to the original){}", if is_async { "async-lock" } else { "sync" }, depth, depth - 1, if quick { "" } else { "; plus 200000 seeded random histories of length 14 (not exhaustive)" }),
+        "scope": format!("{} flavour; handle histories over: Set/SetIfNotEq/SetIfHashNotEq (keys {{0,1}}, every stored value tagged uniquely, equality and hash look at the key only), Update, UpdateIf(true/false), Take, write-guard setters, owner get/read, clone/drop/downgrade/upgrade/into_shared, subscribe/subscribe_reset, and per subscriber poll (two different wakers), next_now, next_ref_now, get, read, reset, clone, clone_reset, drop; at most 3 owners, 3 subscribers, 2 weak references; plus the owner dropped by an unwinding panic (unique / shared, subscriber pending or not); every sequence of depth {} from 2 fresh starts (shared, unique) and depth {} after 6 set-up prefixes (subscriber parked; two owners + weak; weak; unique turned shared; two subscribers with two wakers; an upgraded weak reference next to the original){}", if is_async { "async-lock" } else { "sync" }, depth, depth - 1, if quick { "" } else { "; plus 200000 seeded random histories of length 14 (not exhaustive)" }),
         "evaluations": n,
         "distinct_nontrivial": kinds.into_inner().unwrap().len(),
         "rule": "every history is executed on the real crate and on a reference model; results, readiness, wake-ups and counts are compared after every operation; non-trivial distinct cases = distinct (previous op kind, op kind) pairs executed",
@@ -822,9 +864,106 @@ fn run_obs_held(tier: &str, known: &Known) -> serde_json::Value {
     })
 }
 
+fn run_obs_guard(tier: &str, known: &Known) -> serde_json::Value {
+    use obs::GOp;
+    let t0 = std::time::Instant::now();
+    let depth = if tier != "thorough" { 3 } else { 4 };
+    let all = GOp::all();
+    let mut seqs: Vec<Vec<GOp>> = vec![vec![]];
+    let mut frontier: Vec<Vec<GOp>> = vec![vec![]];
+    for _ in 0..depth {
+        let mut next = Vec::new();
+        for s in &frontier {
+            for o in &all {
+                let mut t = s.clone();
+                t.push(o.clone());
+                next.push(t);
+            }
+        }
+        seqs.extend(next.iter().cloned());
+        frontier = next;
+    }
+    let mut failures: BTreeMap<String, (usize, serde_json::Value)> = BTreeMap::new();
+    let mut kinds: BTreeSet<String> = BTreeSet::new();
+    let mut evals = 0usize;
+    for is_async in [false, true] {
+        for ops in &seqs {
+            evals += 1;
+            for w in ops.windows(2) {
+                kinds.insert(format!("{}:{}>{}", is_async, w[0].kind(), w[1].kind()));
+            }
+            let r = std::panic::catch_unwind(std::panic::AssertUnwindSafe(|| obs::run_guard_session(is_async, ops)));
+            let f = match r {
+                Ok(None) => continue,
+                Ok(Some(f)) => f,
+                Err(p) => {
+                    let msg = p.downcast_ref::<String>().cloned().or_else(|| p.downcast_ref::<&str>().map(|s| s.to_string())).unwrap_or_default();
+                    obs::ObsFailure { property: if is_async { "C01+C16" } else { "C01" }, classification: format!("{}/guard-session:panic", if is_async { "async-lock" } else { "sync" }), what: format!("panicked: {}", msg), step: 0, expected: "no panic".into(), observed: msg }
+                }
+            };
+            let key = format!("{}|{}", f.classification, f.what);
+            let props: Vec<&str> = f.property.split('+').collect();
+            let j = serde_json::json!({"properties": props, "property": props[0], "classification": f.classification, "what": f.what, "step": 0, "expected": f.expected, "observed": f.observed, "known": known.matches(&key),
+                "input": {"kind": "obs-guard", "flavour": if is_async { "async-lock" } else { "sync" }, "ops": ops.iter().map(|o| format!("{:?}", o)).collect::<Vec<_>>()}});
+            let e = failures.entry(key).or_insert((usize::MAX, serde_json::Value::Null));
+            if ops.len() < e.0 {
+                *e = (ops.len(), j);
+            }
+        }
+    }
+    serde_json::json!({
+        "check": "obs-guard", "tier": tier, "seed": 0,
+        "scope": format!("one ObservableWriteGuard of a SharedObservable (sync and async-lock) with a subscriber: every sequence of up to {} operations through that one guard out of set / set_if_not_eq / set_if_hash_not_eq (keys {{0,1}}; equality and hash look at the key only), update changing only the tag, update changing the key, update_if(true/false); every result, the value seen through the guard after each operation, the stored value after the guard is dropped and the subscriber's readiness are compared with the sequential reference", depth),
+        "evaluations": evals,
+        "distinct_nontrivial": kinds.len(),
+        "rule": "distinct non-trivial cases = distinct (flavour, operation, next operation) triples",
+        "exhaustive": true,
+        "samples": [{"kind": "obs-guard", "ops": seqs[seqs.len() / 2].iter().map(|o| format!("{:?}", o)).collect::<Vec<_>>()}],
+        "failures": failures.values().map(|x| x.1.clone()).collect::<Vec<_>>(),
+        "elapsed_s": t0.elapsed().as_secs_f64(),
+    })
+}
+
 fn replay_obs(v: &serde_json::Value) -> i32 {
     use obs::*;
     let inp = &v["input"];
+    if inp["kind"].as_str() == Some("obs-unwind") {
+        println!("replaying on the real crate (owner dropped by an unwinding panic): {}", inp);
+        let r = std::panic::catch_unwind(|| run_unwind_drop(inp["flavour"].as_str() == Some("async-lock"), inp["unique_start"].as_bool().unwrap_or(false), inp["polled_before"].as_bool().unwrap_or(true)));
+        return match r {
+            Ok(None) => {
+                println!("passes");
+                0
+            }
+            Ok(Some(f)) => {
+                println!("FAILS: [{}] {}\n  expected: {}\n  observed: {}", f.classification, f.what, f.expected, f.observed);
+                1
+            }
+            Err(_) => {
+                println!("FAILS: panicked");
+                1
+            }
+        };
+    }
+    if inp["kind"].as_str() == Some("obs-guard") {
+        let ops: Vec<GOp> = inp["ops"].as_array().unwrap().iter().map(|o| GOp::parse(o.as_str().unwrap()).expect("gop")).collect();
+        let is_async = inp["flavour"].as_str() == Some("async-lock");
+        println!("replaying on the real crate (one write guard): {}", inp);
+        return match std::panic::catch_unwind(std::panic::AssertUnwindSafe(|| run_guard_session(is_async, &ops))) {
+            Ok(None) => {
+                println!("passes");
+                0
+            }
+            Ok(Some(f)) => {
+                println!("FAILS: [{}] {}\n  expected: {}\n  observed: {}", f.classification, f.what, f.expected, f.observed);
+                1
+            }
+            Err(_) => {
+                println!("FAILS: panicked");
+                1
+            }
+        };
+    }
     if inp["kind"].as_str() == Some("obs-held") {
         let sc = HeldScenario {
             pre_set: inp["pre_set"].as_u64().map(|x| x as u8),
@@ -891,7 +1030,7 @@ fn main() {
                 std::process::exit(0);
             }
         }
-        if v["input"]["kind"].as_str() == Some("obs") || v["input"]["kind"].as_str() == Some("obs-held") {
+        if v["input"]["kind"].as_str() == Some("obs") || v["input"]["kind"].as_str() == Some("obs-held") || v["input"]["kind"].as_str() == Some("obs-guard") || v["input"]["kind"].as_str() == Some("obs-unwind") {
             std::process::exit(replay_obs(&v));
         }
         let sc = Scenario::from_json(&v["input"]).expect("scenario");
@@ -1000,6 +1139,16 @@ fn main() {
             "rule": "distinct non-trivial cases = distinct (operation, in transaction / panics, empty vector) classes exercised",
             "exhaustive": true, "samples": [], "failures": fv, "elapsed_s": t0.elapsed().as_secs_f64(),
         });
+        let text = serde_json::to_string_pretty(&j).unwrap();
+        match &args.out {
+            Some(p) => std::fs::write(p, text).unwrap(),
+            None => println!("{}", text),
+        }
+        return;
+    }
+    if args.check == "obs-guard" {
+        let j = run_obs_guard(&args.tier, &known);
+        std::panic::set_hook(prev);
         let text = serde_json::to_string_pretty(&j).unwrap();
         match &args.out {
             Some(p) => std::fs::write(p, text).unwrap(),
